@@ -69,8 +69,22 @@ namespace bloch::runtime {
     // the analyser resolved them; the object's dynamic class only matters for virtual dispatch.
     static void applyStaticClass(Value& v, const RuntimeTypeInfo& declared) {
         if (declared.kind == Value::Type::Object && v.type == Value::Type::Object &&
-            v.objectValue && !declared.className.empty())
+            !declared.className.empty())
             v.className = declared.className;
+    }
+
+    // A reference slot keeps its declared class whatever is stored into it: a null reference and
+    // the empty value left behind by 'destroy' carry it too, so that an object assigned later is
+    // still seen through the declared class when overloads are resolved.
+    static void keepStaticClass(const Value& existing, Value& incoming) {
+        if (existing.className.empty())
+            return;
+        bool slotHoldsReference =
+            existing.type == Value::Type::Object || existing.type == Value::Type::Void;
+        bool incomingIsReference =
+            incoming.type == Value::Type::Object || incoming.type == Value::Type::Void;
+        if (slotHoldsReference && incomingIsReference)
+            incoming.className = existing.className;
     }
 
     static std::unordered_map<std::string, RuntimeTypeInfo> typeSubstitutionOf(
@@ -675,11 +689,7 @@ namespace bloch::runtime {
             auto fit = it->find(name);
             if (fit != it->end()) {
                 Value newVal = v;
-                if (fit->second.value.type == Value::Type::Object &&
-                    newVal.type == Value::Type::Object && newVal.objectValue &&
-                    !fit->second.value.className.empty()) {
-                    newVal.className = fit->second.value.className;
-                }
+                keepStaticClass(fit->second.value, newVal);
                 fit->second.value = newVal;
                 fit->second.initialized = true;
                 return;
@@ -691,12 +701,7 @@ namespace bloch::runtime {
                 RuntimeField* field = findInstanceField(m_currentClassCtx, name);
                 if (field && field->offset < thisObj->fields.size()) {
                     Value newVal = v;
-                    const Value& existing = thisObj->fields[field->offset];
-                    if (existing.type == Value::Type::Object &&
-                        newVal.type == Value::Type::Object && newVal.objectValue &&
-                        !existing.className.empty()) {
-                        newVal.className = existing.className;
-                    }
+                    keepStaticClass(thisObj->fields[field->offset], newVal);
                     thisObj->fields[field->offset] = newVal;
                     return;
                 }
@@ -704,11 +709,7 @@ namespace bloch::runtime {
             auto [field, owner] = findStaticFieldWithOwner(m_currentClassCtx, name);
             if (field && owner && field->offset < owner->staticStorage.size()) {
                 Value newVal = v;
-                const Value& existing = owner->staticStorage[field->offset];
-                if (existing.type == Value::Type::Object && newVal.type == Value::Type::Object &&
-                    newVal.objectValue && !existing.className.empty()) {
-                    newVal.className = existing.className;
-                }
+                keepStaticClass(owner->staticStorage[field->offset], newVal);
                 owner->staticStorage[field->offset] = newVal;
                 return;
             }
@@ -2053,10 +2054,10 @@ namespace bloch::runtime {
                     v = eval(var->initializer.get());
                     initialized = true;
                 }
-                if (dynamic_cast<NamedType*>(var->varType.get()))
-                    applyStaticClass(v, typeInfoFromAst(var->varType.get(),
-                                                        typeSubstitutionOf(m_currentClassCtx)));
             }
+            if (dynamic_cast<NamedType*>(var->varType.get()))
+                applyStaticClass(v, typeInfoFromAst(var->varType.get(),
+                                                    typeSubstitutionOf(m_currentClassCtx)));
             m_env.back()[var->name] = {v, var->isTracked, initialized};
         } else if (auto block = dynamic_cast<BlockStatement*>(s)) {
             beginScope();
